@@ -26,6 +26,8 @@ def _programs(ck, tier, seed):
     for i in range(n_rand):
         if i % 5 == 4:
             progs.append(graphs.productive_cyclic_program(rng, rng.choice([5, 7, mx])))
+        elif i % 5 == 3:
+            progs.append(graphs.grammar_like_program(rng, rng.choice([1, 2, 3])))
         else:
             progs.append(graphs.random_program(rng, rng.choice([3, 5, mx]), allow_bad=True))
     if tier == "thorough":
